@@ -158,7 +158,14 @@ def run(ctx):
         # no buffer write between count and the back-space
         writes = [(f, op, bb2) for (f, op, bb2, w) in phonetic.field_writes(prog, reph_fn, mods, body=rb) if f[:1] == (buf,)]
         early = [w for w in writes if w[2] != bbb and rb.dominates(cbb, w[2]) and not rb.dominates(bbb, w[2]) and bbb in rb.reachable_from(w[2])]
-        if not (len_on_buf and skip_on_buf and sub is not None):
+        sk_core = sk
+        if sk_core.k == "field" and str(sk_core.a[1]) == "0":
+            sk_core = strip_refs(sk_core.a[0])
+        exact_sub = sk_core.k == "bin" and sk_core.a[0] in ("Sub", "SubWithOverflow")
+        if sub is not None and not exact_sub:
+            r2.violation("tail", "the number of code points skipped is %r, not exactly len − step: the saved tail and the removed tail differ" % (sk_core.a[0] if sk_core.k == "bin" else sk_core.k,),
+                         site_of(rb, sbb))
+        elif not (len_on_buf and skip_on_buf and sub is not None):
             r2.violation("tail", "the saved tail is not chars().skip(len − step) of the buffer with len = chars().count() of the buffer", site_of(rb, sbb))
         elif not same_step:
             r2.violation("tail", "the number of code points saved (skip(len − _%s)) and removed (back-space(_%s)) are different values" % (step_skip, step_bs), site_of(rb, bbb))
